@@ -19,8 +19,10 @@ import time
 
 from . import common
 
-EVIDENCE = os.path.join(common.VERIF, "evidence")
-REPLAYS = os.path.join(common.VERIF, "replays")
+# (the two directories can be redirected for runs against seeded defects, which must not overwrite the
+# evidence of the unchanged tree)
+EVIDENCE = os.environ.get("VERIF_EVIDENCE_DIR") or os.path.join(common.VERIF, "evidence")
+REPLAYS = os.environ.get("VERIF_REPLAY_DIR") or os.path.join(common.VERIF, "replays")
 KNOWN = os.path.join(common.VERIF, "known_findings.json")
 
 
